@@ -118,7 +118,7 @@ func (e *Engine) registerIntrinsics2() {
 		if w.T == nil {
 			panic(targetPanic{msg: "nil io.Writer in json.Encoder"})
 		}
-		m := c.eng.prog.LookupMethod(w.T, nil, "Write")
+		m := c.eng.lookupMethod(w.T, "Write")
 		if m == nil {
 			panic(engineErr("json.Encoder: %v has no Write", w.T))
 		}
